@@ -289,11 +289,14 @@ func (m *locker) try(ctx context.Context, cancel context.CancelFunc, name string
 				}
 			}
 		}
+		released := atomic.AddInt32(&released, 1)
+		if released >= m.majority {
+			cancel() // the lock context must be done before the key is given up below
+		}
 		if !errors.Is(err, ErrNotLocked) {
 			_ = m.script(context.Background(), delkey, key, val, deadline)
 		}
-		if released := atomic.AddInt32(&released, 1); released >= m.majority {
-			cancel()
+		if released >= m.majority {
 			if released == m.totalcnt && atomic.LoadInt32(&failures) < m.majority {
 				m.mu.Lock()
 				if g.w--; g.w == 0 {
